@@ -161,11 +161,15 @@ def _last(alts):
 
 
 def _longest(alts):
-    best = alts[1] if len(alts) > 1 else alts[0]
-    for a in alts:
-        if isinstance(a, (str, bytes)) and (not isinstance(best, (str, bytes)) or len(a) > len(best)):
-            if len(a) <= 300:
-                best = a
+    """strings / bytes: the longest alternative up to 300 bytes; everything else: the LAST alternative, so that this
+    variant differs from `_second` in (almost) every leaf, not only in strings"""
+    best = alts[-1]
+    if any(isinstance(a, (str, bytes)) for a in alts):
+        best = alts[1] if len(alts) > 1 else alts[0]
+        for a in alts:
+            if isinstance(a, (str, bytes)) and (not isinstance(best, (str, bytes)) or len(a) > len(best)):
+                if len(a) <= 300:
+                    best = a
     return best
 
 
